@@ -170,6 +170,48 @@ def h_parse_params(s: str, maxlen: int):
     return None
 
 
+def h_html_tag(body: str, maxlen: int, closing: bool, selfclosing: bool):
+    """utoken._analyze_html_tag on '<' + body + '>' (the scanner hands it everything between angle brackets that looks like a tag)"""
+    from mwlib.parser.token import utoken
+
+    assume(len(body) <= maxlen)
+    assume(in_alphabet(body, "a1 =\"/-"))
+    body = pinned(body)
+    assume(body[:1] == "a")  # the scanner only emits t_html_tag for '<' '/'? letter ...
+    text = ("</" if closing else "<") + body + ("/>" if selfclosing else ">")
+
+    class Tag:
+        t_html_tag_end = 99
+
+    tag = Tag()
+    tag.text = text
+    try:
+        utoken._analyze_html_tag(tag)
+    except Exception as e:
+        return {"sig": "_analyze_html_tag|" + type(e).__name__, "tag": text, "kernel": "_analyze_html_tag"}
+    return None
+
+
+def h_imagemod(mod: str, maxlen: int):
+    """ImageMod.parse + handle_imagemod on one image modifier"""
+    util = _mods()[0]
+    assume(len(mod) <= maxlen)
+    assume(in_alphabet(mod, "px0x=u. "))
+    mod = pinned(mod)
+
+    class Img:
+        pass
+
+    try:
+        im = util.ImageMod()
+        t, m = im.parse(mod)
+        if t:
+            util.handle_imagemod(Img(), t, m)
+    except Exception as e:
+        return {"sig": "imagemod|" + type(e).__name__, "mod": mod, "kernel": "handle_img_width"}
+    return None
+
+
 def h_ensure_int(v: str, maxlen: int):
     advtree = _mods()[2]
     assume(len(v) <= maxlen)
@@ -314,6 +356,8 @@ def build(tier: str) -> CheckSpec:
     cubes.append(Cube("img width numbers < 10^10", h_img_width_num, {"w": int, "h": int, "hasx": bool}, {}, timeout=tmo, group="imagemod"))
     cubes.append(Cube("img upright pinned", h_img_upright, {"m": str}, {"maxlen": 6 if q else 8}, timeout=tmo, group="imagemod"))
     cubes.append(Cube("parse_params pinned", h_parse_params, {"s": str}, {"maxlen": 4 if q else 6}, timeout=tmo, group="parse_params"))
+    cubes.append(Cube("html tag body pinned", h_html_tag, {"body": str, "closing": bool, "selfclosing": bool}, {"maxlen": 4 if q else 5}, timeout=tmo, group="_analyze_html_tag"))
+    cubes.append(Cube("image modifier pinned", h_imagemod, {"mod": str}, {"maxlen": 4 if q else 6}, timeout=tmo, group="imagemod"))
     cubes.append(Cube("_ensure_int pinned", h_ensure_int, {"v": str}, {"maxlen": 4 if q else 5}, timeout=tmo, group="_ensure_int"))
     cubes.append(Cube("<pages from to> work bound", h_pages, {"a": int, "b": int}, {}, timeout=tmo, group="create_pages"))
     cubes.append(Cube("twin: entity resolved", twin_entity, {"n": int}, {}, timeout=60, role="twin"))
@@ -365,6 +409,8 @@ def replay(cand: dict) -> dict:
         raw = "<nowiki>" + d["text"] + "</nowiki> " + d["text"]
     elif k == "compute_path":
         raw = " x ".join("'" * c for c in d["counts"]) + " y"
+    elif k == "_analyze_html_tag":
+        raw = "x " + d["tag"] + " y " + d["tag"].replace("<", "</", 1) if not d["tag"].startswith("</") else "x " + d["tag"] + " y"
     elif k in ("handle_img_width", "handle_img_upright"):
         raw = "[[File:x.png|" + d["mod"] + "|caption]]"
     elif k == "parse_params":
